@@ -1097,9 +1097,14 @@ func doCLI(c *core.Ctx, format string, input []byte) {
 	default:
 		args = append(args, c.TmpFile(string(input)))
 	}
+	// what the XML / JSON decoder makes of the input (for the model of the clade conversion)
+	dec := ""
+	if p, _ := core.Safe(func() { dec = decoded(map[string]string{"phyloxml": "phyloxml", "nextstrain": "nextstrain"}[format], input) }); p {
+		dec = ""
+	}
 	cliQ = append(cliQ, cliJob{args, stdin, func(r core.CLIResult) {
 		nl := strings.Count(r.Stdout, "\n")
-		c.Emit("C02.cli", format, core.Escape(string(input)), cliOutcome(r), strconv.Itoa(nl), transport)
+		c.Emit("C02.cli", format, core.Escape(string(input)), cliOutcome(r), strconv.Itoa(nl), transport, dec)
 	}})
 }
 
